@@ -123,7 +123,22 @@ func (e *Exec) scenarioShape(path string, t types.Type, a string) ([]altFn, bool
 			fileT := w.namedType("pkg/codegen", "File")
 			var tags []Val
 			jsonOnly, registered, ownPkg := false, false, false
+			noRoot, typedRoot, rootProps, rootMapping := false, false, false, false
 			for _, tg := range args {
+				switch tg {
+				case "@noroot": // the document has no root schema (definitions only)
+					noRoot = true
+					continue
+				case "@typedroot": // the document's root is an object schema
+					typedRoot = true
+					continue
+				case "@rootprops": // the document's root has a property (and, unless @typedroot, no type)
+					rootProps = true
+					continue
+				case "@rootmapping": // a mapping names the root type of this document: "Mapped"
+					rootMapping = true
+					continue
+				}
 				if tg == "@jsononly" { // not a tag: the formatter list without --extra-imports
 					jsonOnly = true
 					continue
@@ -187,10 +202,28 @@ func (e *Exec) scenarioShape(path string, t types.Type, a string) ([]altFn, bool
 				// the generator's own document has a title (so a name taken from the WRONG
 				// document under --struct-name-from-title shows)
 				ownRootT := w.namedType("pkg/schemas", "Type")
-				ownRoot := s.alloc(mkStruct(ownRootT, map[string]Val{"Title": lit("Own title")}))
+				rootFields := map[string]Val{"Title": lit("Own title")}
+				if typedRoot {
+					tar := s.alloc(&Agg{Elems: []Val{lit("object")}})
+					delete(s.Fresh, tar.Cell)
+					rootFields["Type"] = SliceV{Arr: tar, Len_: 1, Cap: 1}
+				}
+				if rootProps {
+					pt := s.alloc(zeroVal(ownRootT))
+					delete(s.Fresh, pt.Cell)
+					s.CellTypes[pt.Cell] = ownRootT
+					pm := s.alloc(&MapAgg{Tag: "root.Properties", Keys: []Val{lit("p")}, Vals: []Val{pt}})
+					delete(s.Fresh, pm.Cell)
+					rootFields["Properties"] = MapV{Cell: pm.Cell}
+				}
+				ownRoot := s.alloc(mkStruct(ownRootT, rootFields))
 				delete(s.Fresh, ownRoot.Cell)
 				s.CellTypes[ownRoot.Cell] = ownRootT
-				sr := s.alloc(mkStruct(schT, map[string]Val{"ID": atom("schema.ID"), "Definitions": MapV{Cell: dm.Cell}, "ObjectAsType": ownRoot}))
+				schFields := map[string]Val{"ID": atom("schema.ID"), "Definitions": MapV{Cell: dm.Cell}, "ObjectAsType": ownRoot}
+				if noRoot {
+					delete(schFields, "ObjectAsType")
+				}
+				sr := s.alloc(mkStruct(schT, schFields))
 				delete(s.Fresh, sr.Cell)
 				s.CellTypes[sr.Cell] = schT
 				om := s.alloc(&MapAgg{Tag: "outputs", Keys: []Val{atom("schema.ID")}, Vals: []Val{or}})
@@ -212,7 +245,14 @@ func (e *Exec) scenarioShape(path string, t types.Type, a string) ([]altFn, bool
 				ga = s.Heap[gr.Cell].(*Agg)
 				if i := structFieldIndex(ga.Typ, "config"); i >= 0 {
 					cfgA := ga.Elems[i].(*Agg)
-					for name, v := range map[string]Val{"DefaultPackageName": lit("x/defpkg"), "DefaultOutputName": lit("default.go")} {
+					cfgVals := map[string]Val{"DefaultPackageName": lit("x/defpkg"), "DefaultOutputName": lit("default.go")}
+					if rootMapping {
+						mapT := w.namedType("pkg/generator", "SchemaMapping")
+						mar := s.alloc(&Agg{Elems: []Val{mkStruct(mapT, map[string]Val{"SchemaID": atom("schema.ID"), "RootType": lit("Mapped")})}})
+						delete(s.Fresh, mar.Cell)
+						cfgVals["SchemaMappings"] = SliceV{Arr: mar, Len_: 1, Cap: 1}
+					}
+					for name, v := range cfgVals {
 						if j := structFieldIndex(cfgA.Typ, name); j >= 0 {
 							cfgA = cfgA.with(j, v)
 						}
